@@ -79,9 +79,27 @@ def pmap(fn: T.Callable, items: T.Iterable, jobs: int = 0, chunksize: int = 1, i
             yield fn(it)
         return
     ctx = mp.get_context('fork')
-    with ctx.Pool(min(jobs, len(items)), initializer=_worker_init, initargs=(init, initargs)) as pool:
+    pool = ctx.Pool(min(jobs, len(items)), initializer=_worker_init, initargs=(init, initargs))
+    # No `with`: leaving a with-block through an exception calls Pool.terminate(), which can deadlock while workers are busy.
+    try:
         for r in pool.imap(fn, items, chunksize):
             yield r
+    except GeneratorExit:
+        # the consumer stopped early: the workers are of no further use
+        for p in list(getattr(pool, '_pool', [])):
+            try:
+                p.kill()
+            except Exception:
+                pass
+        raise
+    except BaseException:
+        # an exception raised in a worker (or while collecting): the check is broken, never a verdict
+        traceback.print_exc()
+        print('INTERNAL-ERROR exception in a worker process or while collecting its results', file=sys.stderr, flush=True)
+        hard_exit(2)
+    else:
+        pool.close()
+        pool.join()
 
 
 def hard_exit(code: int) -> T.NoReturn:
